@@ -193,6 +193,7 @@ func runC10SelfLoopEnd(c *Cfg) {
 
 func runC10(c *Cfg) {
 	runSpecial(c, "C10", "startless-inner-flow-with-edges")
+	runSpecial(c, "C10", "cycle-through-retried-inner-flow")
 	r := c.Rep
 	defer func() {
 		ll := longLoopCases()
